@@ -66,6 +66,9 @@ THEOREMS = [
     "OllamaVerif.C06.rowsFresh_run",
     "OllamaVerif.C06.defrag_abs_perm_layers",
     "OllamaVerif.Causal.defragCore_rows_sub",
+    "OllamaVerif.C06.canResume_sound",
+    "OllamaVerif.C06.window_present",
+    "OllamaVerif.C06.pigeon",
     "OllamaVerif.C06.reserve_state",
     "OllamaVerif.C06.reserve_inv",
     "OllamaVerif.C06.reserve_covers",
